@@ -59,9 +59,9 @@ APIS = ["text", "pages", "fp_text", "fp_xml"]
 def minimums(tier: str) -> Dict[str, int]:
     if tier == "quick":
         return {"evaluations": 4000, "distinct": 150, "calls_compared": 4000, "fingerprint_checks": 4000, "interleaved_pages": 300,
-                "seen:docs_used": 28, "page_at_a_time_calls": 300, "caching_off_calls": 800}
-    return {"evaluations": 120000, "distinct": 4000, "calls_compared": 120000, "fingerprint_checks": 120000, "interleaved_pages": 20000,
-            "seen:docs_used": 28, "page_at_a_time_calls": 9000, "caching_off_calls": 25000}
+                "seen:docs_used": 32, "page_at_a_time_calls": 300, "caching_off_calls": 800}
+    return {"evaluations": 100000, "distinct": 3000, "calls_compared": 90000, "fingerprint_checks": 90000, "interleaved_pages": 8000,
+            "seen:docs_used": 32, "page_at_a_time_calls": 9000, "caching_off_calls": 25000}
 
 
 # --------------------------------------------------------------------------
@@ -229,6 +229,32 @@ def build_pool() -> List[Dict[str, Any]]:
     tcont = b" ".join(b"BT /F1 10 Tf 1 0 0 1 %d %d Tm (%s) Tj ET" % w for w in words)
     add("word-ties", page_doc([{"content": tcont, "resources": {"Font": {"F1": font_type1("Helvetica")}}, "mediabox": [0, 0, 400, 300]},
                                {"content": tcont.replace(b"w0mmmmmmmm", b"w0mm"), "resources": {"Font": {"F1": font_type1("Helvetica")}}, "mediabox": [0, 0, 400, 300]}]).build(), "misc")
+    # a page WITHOUT resources that names the font, form and colour space the page before it defines
+    rd = Doc()
+    rfont = rd.add(dict(font_widths(name="Res", first=32, widths=[600] * 95, subtype="TrueType",
+                                    encoding={"Type": N("Encoding"), "BaseEncoding": N("WinAnsiEncoding"), "Differences": [65, N("x"), N("y"), N("z")]})))
+    rform = rd.add(Stream({"Type": N("XObject"), "Subtype": N("Form"), "BBox": [0, 0, 300, 300], "Resources": {"Font": {"F1": rfont}}},
+                          b"BT /F1 10 Tf 30 100 Td (form text) Tj ET"))
+    ricc = rd.add(Stream({"N": 4}, b"\x00" * 16))
+    rres = {"Font": {"F1": rfont}, "XObject": {"Fm0": rform}, "ColorSpace": {"Cs1": [N("ICCBased"), ricc]}}
+    rcont = b"/Cs1 cs 0.1 0.2 0.3 0.4 scn BT /F1 12 Tf 30 200 Td (ABC one) Tj ET /Fm0 Do 10 10 50 50 re f"
+    rbare = b"/Cs1 cs 0.4 scn BT /F1 12 Tf 30 200 Td (ABC two) Tj ET /Fm0 Do 10 10 50 50 re f"
+    add("page-without-resources", page_doc([{"content": rcont, "resources": rres, "mediabox": [0, 0, 300, 300]},
+                                            {"content": rbare, "resources": {}, "mediabox": [0, 0, 300, 300]},
+                                            {"content": rcont, "resources": rres, "mediabox": [0, 0, 300, 300]},
+                                            {"content": rbare, "resources": {}, "mediabox": [0, 0, 300, 300]}], doc=rd).build(), "resources")
+    # the same names used by a document that defines none of them (the colour space table is process-wide)
+    add("names-undefined", page_doc([{"content": rbare, "resources": {"Font": {"F9": font_type1("Helvetica")}}, "mediabox": [0, 0, 300, 300]},
+                                     {"content": rbare.replace(b"/F1", b"/F9"), "resources": {"Font": {"F9": font_type1("Helvetica")}}, "mediabox": [0, 0, 300, 300]}]).build(), "resources")
+    # a form XObject that cannot be rendered (extraction raises) and a good document with a form at the SAME object number
+    for fname, fextra, fdata in (("form-undecodable", {"Filter": N("Crypt"), "DecodeParms": {"Name": N("Custom")}}, b"BT /F1 12 Tf 30 100 Td (broken) Tj ET"),
+                                 ("form-good-same-objid", {}, b"BT /F1 12 Tf 30 100 Td (inside the form) Tj ET")):
+        fd = Doc()
+        ffont = fd.add(font_type1("Helvetica"))
+        fd_form = dict({"Type": N("XObject"), "Subtype": N("Form"), "BBox": [0, 0, 300, 300], "Resources": {"Font": {"F1": ffont}}}, **fextra)
+        fform = fd.add(Stream(fd_form, fdata))
+        fcont = b"BT /F1 12 Tf 30 200 Td (on the page) Tj ET q /Fm0 Do Q"
+        add(fname, page_doc([{"content": fcont, "resources": {"Font": {"F1": ffont}, "XObject": {"Fm0": fform}}, "mediabox": [0, 0, 300, 300]}] * 2, doc=fd).build(), "forms")
     # encrypted twins of plain-WinAnsiEncoding (same text, same object numbers)
     tw = _simple_doc(dict(helv, Encoding=N("WinAnsiEncoding")), t2)
     enc = StdEncryptor(2, 3, 128, None, b"", b"owner", -3904, random.Random(1201), id0=b"0123456789abcdef", id1=b"0123456789abcdef")
@@ -251,9 +277,12 @@ def tree_sig(item: Any) -> Any:
     sig: List[Any] = [name, [repr(float(x)) for x in item.bbox]]
     if isinstance(item, LTChar):
         sig += [item.get_text(), item.fontname, repr(item.size), repr(item.adv)]
+        gs = getattr(item, "graphicstate", None)
+        sig += [getattr(getattr(item, "ncs", None), "name", None), repr(getattr(gs, "ncolor", None)), repr(getattr(gs, "scolor", None))]
         return sig
     if isinstance(item, LTCurve):
-        sig += [[repr(p) for p in item.pts], item.stroke, item.fill, repr(item.linewidth)]
+        sig += [[repr(p) for p in item.pts], item.stroke, item.fill, repr(item.linewidth),
+                repr(item.stroking_color), repr(item.non_stroking_color)]
         return sig
     if isinstance(item, LTImage):
         sig += [_stable_name(item.name), repr(item.srcsize), hashlib.md5(item.stream.get_data()).hexdigest()]
@@ -272,6 +301,21 @@ def _stable_name(name: Any) -> Any:
 
 
 def run_api(pdf: bytes, api: str, password: str, caching: bool, page_numbers: Optional[List[int]]) -> Any:
+    """The output, or {"__raised__": type name} when the call raises one of the library's own exceptions
+    (a document that cannot be extracted has to fail the same way whatever was processed before)."""
+    try:
+        return _run_api(pdf, api, password, caching, page_numbers)
+    except Exception as e:  # noqa: BLE001
+        if type(e).__module__.startswith("pdfminer"):
+            return {"__raised__": type(e).__name__}
+        raise
+
+
+def _raised(x: Any) -> bool:
+    return isinstance(x, dict) and "__raised__" in x
+
+
+def _run_api(pdf: bytes, api: str, password: str, caching: bool, page_numbers: Optional[List[int]]) -> Any:
     from pdfminer.high_level import extract_pages, extract_text, extract_text_to_fp
 
     if api == "text":
@@ -479,6 +523,9 @@ def run_history(rec, pool, base, rng: random.Random, hid: str, shared: SharedSta
         caching = rng.random() < 0.6
         n = base["%d/all" % i]["npages"]
         mode = rng.choice(["all", "all", "subset", "one_at_a_time"])
+        if _raised(base["%d/%s" % (i, api)]):
+            mode = "all"
+            rec.count("calls_expected_to_raise")
         rec.see("docs_used", d["name"])
         calls.append((d["name"], api, caching, mode))
         if rng.random() < 0.5:
@@ -557,11 +604,13 @@ def run_interleaving(rec, pool, base, rng: random.Random, hid: str) -> List[Tupl
             page = next(it)
         except StopIteration:
             live.remove(j)
-            if pos != base["%d/all" % i]["npages"]:
+            if pos != base["%d/all" % i]["npages"] and not _raised(base["%d/pages" % i]):
                 fails.append(("interleaving:page_count", "%s iterator of %s yielded %d pages" % (hid, pool[i]["name"], pos)))
             continue
         except Exception as e:  # noqa: BLE001
             live.remove(j)
+            if _raised(base["%d/pages" % i]) and base["%d/pages" % i]["__raised__"] == type(e).__name__:
+                continue
             fails.append(("exception_in_interleaving:%s" % type(e).__name__, "%s %s: %s: %s" % (hid, pool[i]["name"], type(e).__name__, e)))
             continue
         order.append(j)
@@ -569,6 +618,9 @@ def run_interleaving(rec, pool, base, rng: random.Random, hid: str) -> List[Tupl
         rec.count("interleaved_pages")
         rec.see("docs_used", pool[i]["name"])
         expd = base["%d/pages" % i]
+        if _raised(expd):
+            its[j][2] = pos + 1
+            continue
         if pos >= len(expd) or sig != expd[pos]:
             fails.append(("interleaving:page_differs", "%s schedule %s: page %d of %s differs from the baseline" % (hid, order[-8:], pos, pool[i]["name"])))
         its[j][2] = pos + 1
